@@ -66,6 +66,9 @@ def units(tier):
     for name in checksum_shapes():
         us.append({"kind": "checksum", "shape": name})
     us.append({"kind": "build-data"})
+    from .. import scale
+    for n in scale.sizes(tier):
+        us.append({"kind": "scale", "size": n})
     return us
 
 
@@ -347,9 +350,66 @@ def check_build_data(r=None):
     return out
 
 
+def run_scale(n, r):
+    """covered regions of n bytes (size axis): RawCopy fields against the outer stream bytes, top level, behind a header, inside a
+    Prefixed and a NullTerminated region; a built checksum verifies; single-bit corruptions at both ends, in the middle and next
+    to every 4096-byte boundary of the region and in the digest are refused"""
+    import construct as C
+    from .. import scale
+    this = C.this
+    payload = scale.payload(n, "nozero")
+    shapes = {
+        "top": (C.Struct("fields" / C.RawCopy(C.Bytes(n)), "checksum" / C.Checksum(C.Bytes(16), lambda b: hashlib.md5(b).digest(), this.fields.data), "t" / C.Byte), 0),
+        "after-header": (C.Struct("h" / C.Bytes(3), "fields" / C.RawCopy(C.Struct("d" / C.Bytes(n - 1), "e" / C.Byte)), "checksum" / C.Checksum(C.Int32ub, lambda b: zlib.crc32(b) & 0xffffffff, this.fields.data)), 3),
+        "in-prefixed": (C.Struct("h" / C.Byte, "p" / C.Prefixed(C.Int32ul, C.Struct("fields" / C.RawCopy(C.GreedyBytes))), "t" / C.Byte), 5),
+        "in-nullterminated": (C.Struct("h" / C.Byte, "p" / C.NullTerminated(C.Struct("fields" / C.RawCopy(C.GreedyBytes))), "t" / C.Byte), 1),
+        "counted": (C.Struct("n" / C.Int32ub, "fields" / C.RawCopy(C.Array(this.n, C.Byte)), "checksum" / C.Checksum(C.Bytes(20), lambda b: hashlib.sha1(b).digest(), this.fields.data)), 4),
+    }
+    values = {"top": dict(fields=dict(value=payload), t=1), "after-header": dict(h=b"abc", fields=dict(value=dict(d=payload[:n - 1], e=7))),
+              "in-prefixed": dict(h=1, p=dict(fields=dict(value=payload)), t=2), "in-nullterminated": dict(h=1, p=dict(fields=dict(value=payload)), t=2),
+              "counted": dict(n=n, fields=dict(value=list(payload)))}
+    for name, (d, o1) in shapes.items():
+        case0 = {"t": "scale", "shape": name, "size": n}
+        r.states += 1
+        try:
+            msg = d.build(values[name])
+            p = d.parse(msg)
+            rc = p["fields"] if "fields" in p else p["p"]["fields"]
+        except Exception as e:
+            r.violation("C14/scale/%s/built-message-does-not-verify" % name, case0, "build/parse of a %d-byte region raised %r" % (n, e))
+            continue
+        r.case(nontrivial=True, outcome="scale-verifies", transitions=2, validated=1)
+        if (rc["offset1"], rc["offset2"], rc["length"]) != (o1, o1 + n, n) or bytes(rc["data"]) != msg[o1:o1 + n]:
+            r.violation("C14/scale/%s/fields" % name, case0, "RawCopy over %d bytes at offset %d: offsets %r..%r length %r, data equals the stream slice: %r" % (
+                n, o1, rc["offset1"], rc["offset2"], rc["length"], bytes(rc["data"]) == msg[o1:o1 + n]))
+        if "checksum" in p:
+            dl = len(msg) - (o1 + n) - (1 if name == "top" else 0)
+            spots = {o1 * 8, (o1 + n) * 8 - 1, (o1 + n // 2) * 8 + 3, (o1 + n) * 8, (o1 + n + dl) * 8 - 1}
+            for k in range(4096, n, 4096):
+                spots |= {(o1 + k) * 8 - 1, (o1 + k) * 8}
+            for bit in sorted(spots):
+                m = bytearray(msg)
+                m[bit // 8] ^= 0x80 >> (bit % 8)
+                r.states += 1
+                try:
+                    d.parse(bytes(m))
+                    res = "accepted"
+                except C.ChecksumError:
+                    res = "ChecksumError"
+                except Exception as e:
+                    res = type(e).__name__
+                r.case(nontrivial=True, outcome="scale-flip-" + res, validated=1)
+                if res != "ChecksumError" and not (name == "counted" and bit < 32):
+                    r.violation("C14/scale/%s/corruption-%s" % (name, res), dict(case0, flip=bit), "a %d-byte region with bit %d flipped: %s" % (n, bit, res))
+    r.sample({"scale_size": n, "shapes": sorted(shapes)})
+
+
 def run_unit(unit, tier):
     r = UnitResult()
     k = unit["kind"]
+    if k == "scale":
+        run_scale(unit["size"], r)
+        return r
     if k == "rawcopy":
         L = INFO["bounds"][tier]["L"]
         for start in STARTS:
@@ -372,6 +432,9 @@ def run_unit(unit, tier):
 
 
 def replay(case):
+    if case.get("t") == "scale":
+        r = UnitResult(); run_scale(case["size"], r)
+        return [v for v in r.violations if v["case"].get("shape") == case["shape"]]
     if case["t"] == "rawcopy":
         return check_rawcopy(case["inner"], case["placement"], case["data"], case["start"])[1]
     if case["t"] == "checksum":
